@@ -117,6 +117,12 @@ func (g *Gen) initTrusted() {
 	t[intstrPkg+".FromInt"] = &Trusted{pure: true, rule: fromInt}
 	t[intstrPkg+".FromInt32"] = &Trusted{pure: true, rule: fromInt}
 	t[intstrPkg+".Parse"] = &Trusted{pure: true}
+	t[intstrPkg+".ValueOrDefault"] = &Trusted{pure: true, rule: func(fc *FnCtx, st *State, in ssa.Instruction, c *ssa.CallCommon, args []Val, resT types.Type) (Val, bool) {
+		fc.useTrusted("intstr.ValueOrDefault(p, d) = p if p != nil, else a pointer to a copy of d")
+		pt := resT.Underlying().(*types.Pointer).Elem()
+		ref := fc.materialize(st, args[1].SV, pt)
+		return Val{T: ite(eq(args[0].T, "nilref"), ref, args[0].T)}, true
+	}}
 	scaledRule := func(fc *FnCtx, st *State, in ssa.Instruction, c *ssa.CallCommon, args []Val, resT types.Type) (Val, bool) {
 		fc.useTrusted("intstr.GetScaledValueFromIntOrPercent(v,total,up): Int => (IntVal,nil); String \"n%\" => (ceil|floor(n*total/100), nil); else (0, err); float arithmetic treated as exact")
 		pt := c.Args[0].Type().Underlying().(*types.Pointer).Elem()
@@ -201,26 +207,56 @@ func (g *Gen) initTrusted() {
 				nverbs++
 			}
 		}
-		if (format == "%v%%" || format == "%d%%") && len(elems) == 1 {
-			fc.useTrusted("fmt.Sprintf(\"%d%%\", n) = pct(n)")
-			return Val{T: fc.pctTerm("(iint " + elems[0] + ")")}, true
+		_ = nverbs
+		if r, ok := fc.sprintfTerm(format, elems); ok {
+			return Val{T: r}, true
 		}
-		if (format == "%d" || format == "%v") && len(elems) == 1 {
-			// could be int or string payload: only ints are rendered via itoa
-			return Val{T: fc.q.freshConst("sprintf", sStr)}, true
-		}
-		if nverbs != len(elems) {
+		return Val{}, false
+	}}
+	t["sigs.k8s.io/controller-runtime/pkg/client.RawPatch"] = &Trusted{pure: true, rule: func(fc *FnCtx, st *State, in ssa.Instruction, c *ssa.CallCommon, args []Val, resT types.Type) (Val, bool) {
+		fc.useTrusted("client.RawPatch(type, data): an opaque patch value carrying exactly the bytes of data")
+		return Val{T: fmt.Sprintf("(mkiface %d nilref 0 (strOfBytes %s))", fc.g.ti.typeID(resT)+1000, args[1].T)}, true
+	}}
+	sortRule := func(fc *FnCtx, st *State, in ssa.Instruction, c *ssa.CallCommon, args []Val, resT types.Type) (Val, bool) {
+		// sort.Sort(X(s)) / sort.Stable: permutes the elements of slice s in place (trusted: Less/Swap implement an ordering on a slice)
+		mi, ok := c.Args[0].(*ssa.MakeInterface)
+		if !ok {
 			return Val{}, false
 		}
-		// injective uninterpreted function per format string
-		fname := fmt.Sprintf("sprintf_%x", hashStr(format))
-		var sorts []string
-		for range elems {
-			sorts = append(sorts, sIface)
+		stt, ok := mi.X.Type().Underlying().(*types.Slice)
+		if !ok || isStructLike(stt.Elem()) {
+			return Val{}, false
 		}
-		fc.q.declareFun(fname, sorts, sStr)
-		return Val{T: app(fname, elems...)}, true
-	}}
+		fc.useTrusted("sort.Sort / sort.Stable on a slice type: an in-place permutation of the slice's elements (nothing else changes); sums over the slice that exist at the call are preserved")
+		sl := fc.val(st, mi.X).T
+		ti := fc.g.ti
+		arr := ti.cellArray(stt.Elem())
+		fc.g.regArr(arr, ti.sortOf(stt.Elem()))
+		old := st.get(arr)
+		fc.q.fresh++
+		perm := fc.q.declareFun(fmt.Sprintf("perm_%d", fc.q.fresh), []string{sInt}, sInt)
+		n := "(slen " + sl + ")"
+		fc.q.assert(implies(st.reach, fmt.Sprintf("(forall ((pi Int)) (! (=> (and (<= 0 pi) (< pi %s)) (and (<= 0 (%s pi)) (< (%s pi) %s))) :pattern ((%s pi))))", n, perm, perm, n, perm)))
+		lam := fmt.Sprintf("(lambda ((ar Ref)) (ite (and (= (rbase ar) (rbase (sarr %s))) (<= (roff (sarr %s)) (roff ar)) (< (roff ar) (+ (roff (sarr %s)) %s))) (select %s (eref (sarr %s) (%s (- (roff ar) (roff (sarr %s)))))) (select %s ar)))", sl, sl, sl, n, old, sl, perm, sl, old)
+		nv := fc.q.freshConst(arr+"@sorted", fc.g.arrSort[arr])
+		fc.q.assert(implies(st.reach, eq(nv, lam)))
+		st.heap[arr] = nv
+		fc.written[arr] = true
+		fc.usesLambda()
+		// sums over this slice that are already defined keep their value
+		for _, key := range sortedKeys(fc.q.recFuns) {
+			fname := fc.q.recFuns[key]
+			bv, body, _ := strings.Cut(key, "|")
+			if !strings.Contains(body, old) {
+				continue
+			}
+			g := fc.q.recFun(bv, strings.ReplaceAll(body, old, nv))
+			fc.q.assert(implies(st.reach, eq(app(fname, n), app(g, n))))
+		}
+		return Val{}, true
+	}
+	t["sort.Sort"] = &Trusted{rule: sortRule}
+	t["sort.Stable"] = &Trusted{rule: sortRule}
 	strPred := func(f string) *Trusted {
 		return &Trusted{pure: true, rule: func(fc *FnCtx, st *State, in ssa.Instruction, c *ssa.CallCommon, args []Val, resT types.Type) (Val, bool) {
 			return Val{T: app(f, args[0].T, args[1].T)}, true
@@ -288,6 +324,52 @@ func (g *Gen) initTrusted() {
 	}}
 }
 
+// deepCopyRule: x.DeepCopy() for a pointer receiver: a fresh object with equal scalar contents; pointer fields are
+// nil iff the original's are, point to fresh memory otherwise, and pointed-to scalar cells keep their values
+// (generated deepcopy code of k8s API types; assumed, not verified).
+func deepCopyRule(fc *FnCtx, st *State, in ssa.Instruction, c *ssa.CallCommon, args []Val, resT types.Type) (Val, bool) {
+	pt, ok := resT.Underlying().(*types.Pointer)
+	if !ok || len(args) != 1 || !isStructLike(pt.Elem()) {
+		return Val{}, false
+	}
+	if !types.Identical(c.Args[0].Type(), resT) {
+		return Val{}, false
+	}
+	ti := fc.g.ti
+	var ls []Leaf
+	ti.leaves(pt.Elem(), 0, "", &ls)
+	big := len(ls) > 300
+	fc.useTrusted("generated (*T).DeepCopy(): fresh object, equal scalar fields, pointer fields nil iff original nil and pointing to fresh memory, pointed-to scalar cells copied; slices/maps keep their length only")
+	src := args[0].T
+	ref := st.newRef()
+	fc.q.assert(implies(st.reach, fmt.Sprintf("(= (rootTy %s) %d)", st.alloc(), ti.typeID(types.Unalias(pt.Elem())))))
+	for _, l := range ls {
+		fc.g.regArr(l.arr, l.sort)
+		if big && l.sort != sRef && l.sort != sSlice {
+			continue // very large object: scalar contents of the copy are left unconstrained (over-approximation)
+		}
+		ov := sel(st.get(l.arr), emb(src, l.off))
+		nv := ov
+		switch l.sort {
+		case sRef:
+			fresh := st.newRef()
+			nv = ite(eq(ov, "nilref"), "nilref", fresh)
+			if p2, isPtr := l.typ.Underlying().(*types.Pointer); isPtr && !isStructLike(p2.Elem()) {
+				ca := ti.cellArray(p2.Elem())
+				fc.g.regArr(ca, ti.sortOf(p2.Elem()))
+				st.set(ca, sto(st.get(ca), fresh, sel(st.get(ca), ov)))
+			}
+		case sSlice:
+			fresh := st.newRef()
+			nv = ite(eq("(sarr "+ov+")", "nilref"), "nilslice", fmt.Sprintf("(mkslice %s (slen %s) (slen %s))", fresh, ov, ov))
+		}
+		st.set(l.arr, sto(st.get(l.arr), emb(ref, l.off), nv))
+	}
+	r := fc.q.freshConst("deepcopy", sRef)
+	fc.q.assert(implies(st.reach, eq(r, ite(eq(src, "nilref"), "nilref", ref))))
+	return Val{T: r}, true
+}
+
 func constantString(c *ssa.Const) string {
 	s := c.Value.ExactString()
 	if strings.HasPrefix(s, "\"") {
@@ -302,4 +384,30 @@ func constantString(c *ssa.Const) string {
 // instead they must have contracts. (kept for future use)
 func (g *Gen) inlineRule(fc *FnCtx, st *State, in ssa.Instruction, callee *ssa.Function, args []Val, resT types.Type) *Val {
 	return nil
+}
+
+// sprintfTerm: the term standing for fmt.Sprintf(format, elems...) with boxed (interface) arguments.
+func (fc *FnCtx) sprintfTerm(format string, elems []string) (string, bool) {
+	verbs := sprintfVerbRe.FindAllString(format, -1)
+	nverbs := 0
+	for _, v := range verbs {
+		if v != "%%" {
+			nverbs++
+		}
+	}
+	if (format == "%v%%" || format == "%d%%") && len(elems) == 1 {
+		fc.useTrusted("fmt.Sprintf(\"%d%%\", n) = pct(n)")
+		return fc.pctTerm("(iint " + elems[0] + ")"), true
+	}
+	if nverbs != len(elems) {
+		return "", false
+	}
+	fc.useTrusted("fmt.Sprintf with a constant format is an uninterpreted function of its arguments (one symbol per format string)")
+	fname := fmt.Sprintf("sprintf_%x", hashStr(format))
+	var sorts []string
+	for range elems {
+		sorts = append(sorts, sIface)
+	}
+	fc.q.declareFun(fname, sorts, sStr)
+	return app(fname, elems...), true
 }
